@@ -797,7 +797,16 @@ def gen_resolve4(rng, n):
             np_ += 1
             i += 3 + int(pools[i + 2])
         hw = rb(rng, 6)
-        cases[-1] = " ".join(["resolve4", str(rng.randrange(M32)), "nil", hx(hw), str(rng.choice([2, 5])), hx(yip), cgw, cmask, str(len(cd))] + cd +
+        ytok = hx(yip)
+        if rng.random() < 0.2:
+            # allocation branch: no address in the context, a real allocator registry built from small IPv4 pools (or none)
+            ytok = "alloc"
+            pools = []
+            for _ in range(rng.choice([0, 1, 1, 2])):
+                cs, ci_, cm = rng.choice([c for c in CIDRS if c[0] in ("10.0.0.0/24", "10.0.0.128/25", "192.168.1.0/30", "bad/24", "")])
+                pools += [_s(cs) + "/" + ("nil" if ci_ is None else hx(ci_) + ":" + hx(cm)), addr_tok(0.2), "0"]
+            np_ = len(pools) // 3
+        cases[-1] = " ".join(["resolve4", str(rng.randrange(M32)), "nil", hx(hw), str(rng.choice([2, 5])), ytok, cgw, cmask, str(len(cd))] + cd +
                              [addr_tok(0.25), addr_tok(0.5), str(unn), str(lease), str(len(pdns))] + pdns + [str(np_)] + pools)
     return cases
 
@@ -1197,6 +1206,8 @@ def distribution(cases, impl):
             hsum = o.split(" ; ")[0]
             fr = o.split(" ; ")[1].split(" ")[0] if " ; " in o else o
             inc("resolve4_frame" if len(fr) > 100 else "resolve4_" + fr[:12])
+            if t[5] == "alloc":
+                inc("resolve4_allocation_branch" + ("_noresolve" if o == "noresolve" else ""))
             if "nr=1" in hsum:
                 inc("resolve4_unnumbered_default_route")
             if "opts=-" not in hsum:
